@@ -346,7 +346,11 @@ def leaf_value(node):
         v = v.value
     if isinstance(v, str):
         raise TypeError("string leaf")
-    return Fraction(float(v)) if not isinstance(v, int) else Fraction(v)
+    f = Fraction(float(v)) if not isinstance(v, int) else Fraction(v)
+    # the minus sign of a negatable node is stored apart from its value
+    if getattr(node, "is_negative", None):
+        f = -f
+    return f
 
 
 def leaf_texts(node):
@@ -366,8 +370,10 @@ def dump_leaf(ids, node):
     t, t2 = leaf_texts(node)
     v = leaf_value(node)
     ty = "i" if node.type is int or (node.type not in (int, float)) else "f"
+    neg = getattr(node, "is_negative", None)
     return ":".join([str(ids.lid(node)), "J" if v is None else fq(v), ty,
-                     "1" if node.padding is not None else "0", "1" if node.never_pad else "0", hx(t), hx(t2)])
+                     "1" if node.padding is not None else "0", "1" if node.never_pad else "0", hx(t), hx(t2),
+                     "-" if neg is None else ("1" if neg else "0")])
 
 
 def log_tables(s, new):
@@ -933,7 +939,7 @@ def gen_card_tokens(rng, carrier, n, wide=False):
     elif carrier == "imp":
         nums, jumps, interp = ["1", "2", "4", "0.5", "8", "0"], False, True
     elif carrier == "u":
-        nums, jumps, interp = ["1", "2", "3", "0"], True, False
+        nums, jumps, interp = ["1", "2", "3", "0", "-2", "-3"], True, False
     elif carrier == "lat":
         nums, jumps, interp = ["1", "2"], True, False
     else:
@@ -973,7 +979,7 @@ def gen_carrier_case(rng, wide=False):
     if "fill" in cards and "u" not in cards:
         cards["u"] = gen_card_tokens(rng, "u", n, wide)
     if "fill" in cards:
-        have = {t["t"] for t in cards["u"] if t["k"] == "n" and t["t"] != "0"}
+        have = {t["t"].lstrip("-") for t in cards["u"] if t["k"] == "n" and t["t"] != "0"}
         if not have:
             del cards["fill"]
         else:
@@ -1020,6 +1026,8 @@ def api_values(pr, carrier):
             out.append(cell.importance.neutron)
         elif carrier == "u":
             num = cell.universe.number if cell.universe is not None else 0
+            if num and getattr(cell, "not_truncated", False):
+                num = -num            # 'u -3': the cell is not truncated by the boundary of universe 3
             out.append(None if num == 0 else num)
         elif carrier == "lat":
             out.append(None if cell.lattice is None else cell.lattice.value)
@@ -1761,12 +1769,12 @@ def replay(ctx, path):
 
 def run(ctx):
     quick = ctx.tier == "quick"
-    n_exp = 700 if quick else 15000
-    n_bare = 800 if quick else 25000
-    n_sweep = 22 if quick else 450
-    n_carrier = 150 if quick else 3500
-    n_read = 500 if quick else 10000
-    n_direct = 120 if quick else 2500
+    n_exp = 700 if quick else 8000
+    n_bare = 800 if quick else 14000
+    n_sweep = 22 if quick else 250
+    n_carrier = 150 if quick else 1900
+    n_read = 500 if quick else 6000
+    n_direct = 120 if quick else 1400
     ctx.prove()
     ok, log = vlib.coq_make(["Model/Shortcut.vo"])
     if not ok:
